@@ -66,7 +66,7 @@ def case_closed(rng, tier):
     else:
         half = [float(rng.choice([0., 90.])) for _ in range(max(1, nply // 2))]
         stack = half + half[::-1]
-    t = min(a, b) * gen.logu(rng, 2e-3, 2e-2) / len(stack)
+    t = min(a, b) * gen.logu(rng, 3e-4, 2e-2) / len(stack)       # down to span/thickness = 3000: the dense paths then see spectra spanning > 1e8
     kappa = float(rng.choice([0., 1., 0.5])) if rng.random() < 0.5 else float(rng.uniform(0, 3))
     mu = gen.logu(rng, 1e2, 1e4)
     use_pkg = bool(rng.random() < 0.5)
